@@ -107,6 +107,8 @@ def shrink(s: eng.Scn, still_bad, budget_s=20.0):
 
 
 def _ok(c):
+    if not eng.legal(c):
+        return False
     try:
         impl, _ = eng.run_impl(c)
         return not (impl and impl[0].startswith("DEFERR"))
@@ -174,6 +176,7 @@ def engine_check(ctx: Ctx, profile, n_quick, n_thorough, nontrivial, monitor=Non
                     pending.append(s)
                 i += 1
         batch, pending = pending[:chunk], pending[chunk:]
+        batch = [s for s in batch if eng.legal(eng.normalize(s)) or dist.__setitem__("outside_scope_skipped", dist.get("outside_scope_skipped", 0) + 1)]
         for (s, a, b, rt) in run_pair(batch):
             stats["evaluations"] += 1
             stats["ops"] += len(s.ops)
@@ -248,6 +251,7 @@ def _worker(k):
                 mutate(rng, s)
             batch.extend(expand(rng, s) if expand else [s])
             i += jobs
+        batch = [s for s in batch if eng.legal(eng.normalize(s))]
         for (s, a, b, rt) in run_pair(batch):
             stats["evaluations"] += 1
             done_here += 1
